@@ -158,8 +158,16 @@ class StmtMixin:
         raise RaiseSignal(v, cls, st.lineno)
 
     def ex_FunctionDef(self, st):
-        self.st.env[st.name] = Closure([a.arg for a in st.args.args], st.body, dict(self.st.env), False,
-                                       self.frames[-1].module)
+        if st.args.vararg or st.args.kwarg or st.args.posonlyargs:
+            raise Unsupported(f"nested def with *args / **kwargs / positional-only parameters (line {st.lineno})")
+        pos = [a.arg for a in st.args.args]
+        defaults = dict(zip(pos[len(pos) - len(st.args.defaults):], st.args.defaults))
+        for a, d in zip(st.args.kwonlyargs, st.args.kw_defaults):
+            if d is not None:
+                defaults[a.arg] = d
+        clo = Closure(pos + [a.arg for a in st.args.kwonlyargs], st.body, self.st.env, False, self.frames[-1].module,
+                      defaults)
+        self.st.env[st.name] = clo
 
     ex_AsyncFunctionDef = ex_FunctionDef
 
@@ -782,10 +790,23 @@ class StmtMixin:
             cm = self.coerce(cm, cm.ty.args[0], st.lineno)  # `with None:` is an error: obliges `is not None`
         if isinstance(cm, SV) and cm.ty.kind == "opaque" and self.specs.is_lock_type(cm.ty.name):
             self.lock_depth = getattr(self, "lock_depth", 0) + 1
+            self.__dict__.setdefault("_ctx_kinds", []).append("lock")
+            return
+        if isinstance(cm, SV) and cm.ty.kind == "opaque" and self.specs.opaque_method(cm.ty.name, "__enter__"):
+            # a context manager of a library / trusted type whose `__enter__` is declared (OPAQUE_METHODS): the `as`
+            # target is what it yields; leaving the block has no effect the contracts talk about (closing a
+            # connection is the business of the ownership obligations, C21)
+            got = self.call_opaque(cm, "__enter__", [], {}, st)
+            if item.optional_vars is not None:
+                self.assign_target(item.optional_vars, got, st.lineno)
+            self.__dict__.setdefault("_ctx_kinds", []).append("plain")
             return
         raise Unsupported(f"with-statement on {cm.ty if isinstance(cm, SV) else type(cm).__name__} (line {st.lineno})")
 
     def exit_context(self, item, st):
+        kinds = self.__dict__.setdefault("_ctx_kinds", [])
+        if kinds and kinds.pop() == "plain":
+            return
         self.lock_depth = getattr(self, "lock_depth", 1) - 1
 
     def await_(self, node):
